@@ -412,6 +412,13 @@ func RunC04(tier string, args []string) int {
 		}
 	}
 	algs := append(append([]world.SigAlg{}, world.SupportedAlgs...), world.RSAPSS, world.ED25519, world.BogusAlg)
+	// the other algorithm identifiers of the PKI world, each with an EC and an RSA signer (the signature value is a
+	// SHA-256 one under that label: whatever the label, such a CRL is not authentic)
+	for _, oid := range world.OtherAlgOIDs {
+		for _, kind := range []string{"ec", "rsa"} {
+			algs = append(algs, world.SigAlg{Name: "oid-" + oid.String() + "-" + kind, OID: oid, Hash: crypto.SHA256, KeyKind: kind, NoNullParams: kind == "ec"})
+		}
+	}
 	if tier != "thorough" {
 		// quick: all algorithms with the entitled signer, the full signer x AKI matrix for one algorithm per key type
 		for _, path := range []string{"first-load", "refresh", "refresh-retry-after-signer-handshake"} {
